@@ -17,6 +17,7 @@ SPEC = {
         "first-to-last while the dependency runs last-to-first; (c) nothing in the crate can skip a destructor "
         "(no forget/ManuallyDrop/leak on a Popen holder); join/capture wait on the Popen they own; (d) "
         "Exec::communicate / Pipeline::communicate mark every stage detached before spawning."
+        " Also: PopenConfig::default() is not detached."
     ),
     "not_decided": "whether a particular child reacts to EOF / SIGPIPE; scheduling.",
     "trusted_base": ["rustc MIR and drop elaboration (fields/elements are dropped after the type's own Drop::drop, Vec elements in order)",
